@@ -462,7 +462,12 @@ def check_constructors(ctx, nts):
     seen = set()
     for p in w.paths(fi.node):
         gt = set(p.guard_texts())
-        for e in p.setattrs():
+        made = list(p.setattrs())
+        if not made and p.returns() and isinstance(p.ret(), ast.Lambda):
+            # the method is handed back to the caller, which installs it under the name
+            import types
+            made = [types.SimpleNamespace(value=p.ret(), lineno=getattr(p.ret(), 'lineno', fi.node.lineno))]
+        for e in made:
             v = e.value
             if not isinstance(v, ast.Lambda):
                 continue
@@ -731,7 +736,13 @@ def check_compile_expr(ctx, nts):
                     ctx.violation(rule, fi, 'NaryExpr (%s): %s' % (which, seq), 'expected compile(left), compile(values in order), emit(n, order-preserving collector), emit(2, op)', fi.node.lineno, clause='c')
             elif K == 'Field':
                 emits = [(v, e) for k, v, e in top if k == 'emit']
-                if ("hasattr(%s, 'field_name')" % R) in gt:
+                named = ("hasattr(%s, 'field_name')" % R) in gt
+                if not named and not any('field_name' in g for g in gt) and emits and isinstance(emits[0][0][1], ast.Lambda) and emits[0][0][1].args.args \
+                        and canon(emits[0][0][1].body, {emits[0][0][1].args.args[0].arg: 'PKT'}) == 'getattr(PKT, %s.field_name)' % R:
+                    # "is it named?" asked by reading the name: try: <R.field_name> except AttributeError: <a value>
+                    named = any(isinstance(t, ast.Try) and any(isinstance(x, ast.Attribute) and x.attr == 'field_name' for b in t.body for x in ast.walk(b))
+                                and any(h.type is not None and 'AttributeError' in unparse(h.type) for h in t.handlers) for t in ast.walk(fi.node))
+                if named:
                     kinds.add('field')
                     lam = emits[0][0][1] if emits else None
                     ok = len(emits) == 1 and emits[0][0][0] == '0' and isinstance(lam, ast.Lambda) and lam.args.args and canon(lam.body, {lam.args.args[0].arg: 'PKT'}) == 'getattr(PKT, %s.field_name)' % R
@@ -959,6 +970,12 @@ def check_exec(ctx):
                                                                                      or (isinstance(call_.args[1], ast.Name) and call_.args[1].id in empties))
             ok = (any(body_t.startswith('exec_compiled_expr(PKT, %s, ops, *' % x) for x in empties | {'[]', '()'}) or (second_empty and body_t.startswith('exec_compiled_expr(PKT, ') and ', ops, *' in body_t)) \
                 and 'compile_expr(root_expr).as_list()' in unparse(cc.node)
+            if not ok and second_empty and call_name(call_) == 'exec_compiled_expr' and len(call_.args) >= 3 and canon(call_.args[0]) == lam.args.args[0].arg \
+                    and isinstance(call_.args[2], ast.Name):
+                # the program under any local name, bound once to compile_expr(<the expression>).as_list()
+                prm = cc.node.args.args[0].arg if cc.node.args.args else None
+                binds = [n_.value for n_ in ast.walk(cc.node) if isinstance(n_, ast.Assign) and len(n_.targets) == 1 and isinstance(n_.targets[0], ast.Name) and n_.targets[0].id == call_.args[2].id]
+                ok = len(binds) == 1 and prm is not None and canon(binds[0]) == 'compile_expr(%s).as_list()' % prm
         if ok:
             ctx.holds(rule, cc, 'lambda pkt, *v, **k: exec_compiled_expr(pkt, args, compile_expr(expr).as_list(), *v, **k)', 'the callable runs the compiled program on the packet', cc.node.lineno, clause='g')
         elif len(rets) == 1 and isinstance(rets[0].value, ast.Lambda) and isinstance(rets[0].value.body, ast.Call) and call_name(rets[0].value.body) == 'exec_compiled_expr' \
